@@ -46,7 +46,7 @@ func (f *Frame) call(st *State, r *Term, site ssa.Instruction, cc *ssa.CallCommo
 			f.fieldFnCallPre(st, r, cc, args, pos)
 			if ftKey, nt := functypeKey(f.subst(cc.Value.Type())); nt != nil {
 				if ct := f.ctx.eng.contracts.Funcs[ftKey]; ct != nil {
-					return f.functypeCall(st, r, ct, nt, v, args, pos)
+					return f.traceDynamic(r, v, args, f.functypeCall(st, r, ct, nt, v, args, pos))
 				}
 			}
 			if _, isParam := cc.Value.(*ssa.Parameter); isParam && f.contract != nil && f.contract.PureCallbacks {
@@ -54,9 +54,9 @@ func (f *Frame) call(st *State, r *Term, site ssa.Instruction, cc *ssa.CallCommo
 				na := f.ctx.fresh("alloc", SInt)
 				f.ctx.assume(Ge(na, st.alloc))
 				st.alloc = na
-				return f.freshResults(st, cc.Signature(), "cb")
+				return f.traceDynamic(r, v, args, f.freshResults(st, cc.Signature(), "cb"))
 			}
-			return f.havocCall(st, r, nil, cc.Signature(), args, "dynamic call "+describe(cc.Value))
+			return f.traceDynamic(r, v, args, f.havocCall(st, r, nil, cc.Signature(), args, "dynamic call "+describe(cc.Value)))
 		}
 	default:
 		panic(unsupported(fmt.Sprintf("call through %T", v)))
@@ -124,6 +124,44 @@ func (f *Frame) callFn(st *State, r *Term, callee *ssa.Function, bindings []Val,
 	return out
 }
 
+// traceDynamic: ghost trace of a completed call through an opaque function value:
+// dynreturned(fn, args..., results...) in specifications (a state-independent fact).
+func (f *Frame) traceDynamic(r *Term, fnv *Term, args []Val, out Val) Val {
+	ts := []*Term{fnv}
+	for _, a := range args {
+		t, ok := a.(*Term)
+		if !ok {
+			return out
+		}
+		ts = append(ts, t)
+	}
+	switch o := out.(type) {
+	case *Term:
+		ts = append(ts, o)
+	case TupleVal:
+		for _, x := range o {
+			t, ok := x.(*Term)
+			if !ok {
+				return out
+			}
+			ts = append(ts, t)
+		}
+	default:
+		return out
+	}
+	f.ctx.assume(Implies(r, f.ctx.uf(dynRetName(ts), SBool, ts...)))
+	return out
+}
+
+func dynRetName(ts []*Term) string {
+	var sb strings.Builder
+	sb.WriteString("dynreturned")
+	for _, t := range ts {
+		sb.WriteString("!" + trimSort(t.S))
+	}
+	return sb.String()
+}
+
 func (f *Frame) setRegister(st *State, r *Term, name string, v *Term) {
 	f.ctx.eng.compSeen[name] = v.S
 	if r.Op == "true" {
@@ -167,6 +205,17 @@ func (f *Frame) atCallChecks(st *State, r *Term, target *ssa.Function, bindings 
 				}
 			}
 		}
+		if ac.Let != "" {
+			se.pol = 0
+			v := se.eval(ac.Clause.Expr)
+			t, isT := v.V.(*Term)
+			if !isT {
+				sfail("at-call let %s: not a first-class value", ac.Let)
+			}
+			top.contract.AtCalls[i].LetT, top.contract.AtCalls[i].LetS = v.T, t.S
+			f.setRegister(st, r, "$let!"+ac.Let, t)
+			continue
+		}
 		t := se.evalBool(ac.Clause.Expr)
 		label := ac.Clause.Label
 		if label == "" {
@@ -174,6 +223,20 @@ func (f *Frame) atCallChecks(st *State, r *Term, target *ssa.Function, bindings 
 		}
 		f.check("call", shortKey(key)+":"+label, r, t, pos)
 	}
+}
+
+// letRegister: the at-call let clause of the function under verification that defines $name.
+func (f *Frame) letRegister(name string) *AtCall {
+	top := f.top()
+	if top.contract == nil {
+		return nil
+	}
+	for i := range top.contract.AtCalls {
+		if top.contract.AtCalls[i].Let == name {
+			return &top.contract.AtCalls[i]
+		}
+	}
+	return nil
 }
 
 // innermostLoop: the smallest natural loop whose body contains block b.
